@@ -115,6 +115,26 @@ class Session:
                 elif t == "set_size":
                     self.objs[op[1]].mc.sample_size = op[2]
                     out = ["none"]
+                elif t == "mc_setting":
+                    # a Monte Carlo setting of quantity k (r.mc draws samples if there are none, like peek); it must not
+                    # affect anything reported by the derivative method
+                    mc = self.objs[op[1]].mc
+                    what = op[2]
+                    if what == "custom":
+                        mc.use_custom_value_and_error(op[3], op[4])
+                    elif what == "mode":
+                        mc.use_mode_with_confidence(op[3])
+                    elif what == "mean":
+                        mc.use_mean_and_std()
+                    elif what == "confidence":
+                        mc.confidence = op[3]
+                    elif what == "xrange":
+                        mc.set_xrange(op[3], op[4])
+                    elif what == "noxrange":
+                        mc.set_xrange()
+                    else:
+                        raise ValueError(op)
+                    out = ["gen", self.gen_of(op[1])]
                 elif t == "seed":
                     import numpy as np
                     np.random.seed(op[1])      # the user re-seeds numpy: no effect on anything but Monte Carlo draws
@@ -142,11 +162,15 @@ def gen_history(rng, n_ops, mc_share=0.25, rational=True, seeds=False):
     seed0 = rng.choice([1, 2, 3])
     if seeds and rng.random() < 0.6:
         ops.append(["seed", seed0])          # ... possibly the same seed again later in the session
+    mvals = {}
     for _ in range(n_meas):
         e = rng.choice(ERRS)
-        ops.append(["meas", rng.choice(VALS), e])
+        v = rng.choice(VALS)
+        ops.append(["meas", v, e])
+        mvals[len(kinds)] = v
         kinds.append("meas")
         errs.append(e)
+    exponents = set()                        # measurements used as exponents: they keep whole values
 
     def meas_ids():
         return [i for i, k in enumerate(kinds) if k == "meas"]
@@ -168,8 +192,36 @@ def gen_history(rng, n_ops, mc_share=0.25, rational=True, seeds=False):
             if op == "div":
                 second = rng.choice([["obj", rng.choice(meas_ids())], ["const", rng.choice([2, 4, 0.5])]])
                 ops.append(["bin", "div", ["obj", i], second])
+            elif op == "pow" and rng.random() < 0.4 and len(meas_ids()) >= 2:
+                # a measurement as the exponent (often an exact one, uncertainty 0): it stays a variable of the formula
+                b, x = rng.sample(meas_ids(), 2)
+                if b in exponents:
+                    b, x = x, b
+                if b not in exponents:
+                    if mvals[x] not in (1.0, 2.0, 3.0):
+                        ops.append(["set_value", x, rng.choice([2.0, 3.0])])
+                        mvals[x] = ops[-1][2]
+                    if rng.random() < 0.6 and errs[x] != 0:
+                        ops.append(["set_error", x, 0.0])
+                        errs[x] = 0.0
+                    exponents.add(x)
+                    ops.append(["bin", "pow", ["obj", b], ["obj", x]])
+                else:
+                    ops.append(["bin", "pow", ["obj", i], ["const", rng.choice([2, 3])]])
             elif op == "pow":
                 ops.append(["bin", "pow", ["obj", i], ["const", rng.choice([2, 3])]])
+            elif op == "sub" and rng.random() < 0.12 and len(meas_ids()) >= 2 and n_new < 5:
+                # a singular point: sqrt(a - b) at equal central values (value 0, infinite derivative-method uncertainty)
+                a, b = rng.sample([m for m in meas_ids()], 2)
+                if a in exponents or b in exponents:
+                    continue
+                if mvals[a] != mvals[b]:
+                    ops.append(["set_value", b, mvals[a]])
+                    mvals[b] = mvals[a]
+                ops.append(["bin", "sub", ["obj", a], ["obj", b]])
+                kinds.append("der")
+                ops.append(["un", "sqrt", ["obj", len(kinds) - 1]])
+                n_new += 1
             elif rng.random() < 0.25:
                 c = ["const", rng.choice([2, 3, 0.5, 1.5])]
                 ops.append(["bin", op, c, ["obj", i]] if rng.random() < 0.5 else ["bin", op, ["obj", i], c])
@@ -184,7 +236,9 @@ def gen_history(rng, n_ops, mc_share=0.25, rational=True, seeds=False):
             kinds.append("der")
             n_new += 1
         elif r < 0.30:
-            ops.append(["set_value", rng.choice(meas_ids()), rng.choice(VALS)])
+            m = rng.choice(meas_ids())
+            ops.append(["set_value", m, rng.choice([1.0, 2.0, 3.0]) if m in exponents else rng.choice(VALS)])
+            mvals[m] = ops[-1][2]
         elif r < 0.38:
             m = rng.choice(meas_ids())
             e = rng.choice(ERRS + [-0.5])
@@ -214,10 +268,27 @@ def gen_history(rng, n_ops, mc_share=0.25, rational=True, seeds=False):
         elif r < 0.86:
             ops.append(["recalc", rng.choice(ds)])
         elif r < 0.86 + 0.14 * mc_share * 4 / 4 and rng.random() < mc_share * 4:
-            k = rng.randrange(5)
+            k = rng.randrange(8)
             meth = rng.choice(["derivative", "monte-carlo"])
             form = rng.choice(["str", "enum"])
-            if k == 0:
+            if k == 5:
+                d = rng.choice(ds)
+                ops.append(rng.choice([["mc_setting", d, "custom", rng.choice(VALS), rng.choice(ERRS)],
+                                       ["mc_setting", d, "mode", rng.choice([None, 0.5, 0.9])],
+                                       ["mc_setting", d, "mean"], ["mc_setting", d, "confidence", rng.choice([0.5, 0.8])],
+                                       ["mc_setting", d, "xrange", 0.25, 64.0], ["mc_setting", d, "noxrange"]]))
+            elif k >= 6:
+                # one simulation is kept across method switches: read under Monte Carlo, switch away and back, read again
+                d = rng.choice(ds)
+                rd = rng.choice(["read_value", "read_error"])
+                ops.extend(rng.choice([
+                    [["set_own", d, "monte-carlo", form], [rd, d], ["set_own", d, "derivative", form], ["read_error", d],
+                     ["set_own", d, "monte-carlo", form], [rd, d]],
+                    [["set_global", "monte-carlo", form], [rd, d], ["set_own", d, "monte-carlo", form], [rd, d],
+                     ["reset_own", d], [rd, d], ["set_global", "derivative", form]],
+                    [["set_own", d, "monte-carlo", form], [rd, d], ["reset_own", d], ["set_own", d, "monte-carlo", form], [rd, d]],
+                ]))
+            elif k == 0:
                 ops.append(["set_global", meth, form])
             elif k == 1:
                 ops.append(["set_own", rng.choice(ds), meth, form])
@@ -272,6 +343,8 @@ def coq_op(op, I):
         return "(Peek oq {})".format(op[1])
     if t == "set_size":
         return "(SetSampleSize oq {})".format(op[1])
+    if t == "mc_setting":
+        return "(Peek oq {})".format(op[1])      # r.mc: in the model's terms a Monte Carlo setting is a peek at the samples
     raise ValueError(op)
 
 
@@ -280,6 +353,8 @@ def coq_obs(o):
         return "XNone"
     if o[0] == "rejected":
         return "XRejected"
+    if o[0] in ("val", "err", "deriv") and not math.isfinite(o[1]):
+        return "XAny"
     if o[0] == "val":
         return "(XVal {})".format(qlit(o[1]))
     if o[0] == "err":
@@ -292,7 +367,7 @@ def coq_obs(o):
 
 
 def coq_hcase(ops, outs, I):
-    scale = max([1.0] + [abs(o[1]) for o in outs if o[0] in ("val", "err", "deriv")])
+    scale = max([1.0] + [abs(o[1]) for o in outs if o[0] in ("val", "err", "deriv") and math.isfinite(o[1])])
     body = coq_list(["({}, {})".format(I(coq_op(op, I)), coq_obs(o)) for op, o in zip(ops, outs) if op[0] != "seed"])
     return "({}, {})".format(qlit(Fraction(scale) / 10 ** 9), body)
 
@@ -337,6 +412,10 @@ def rebuild_afresh(s, k, memo=None):
 
 
 def close(a, b, tol=1e-11):
+    if math.isnan(a) or math.isnan(b):
+        return math.isnan(a) and math.isnan(b)
+    if math.isinf(a) or math.isinf(b):
+        return a == b
     return abs(a - b) <= tol * (abs(a) + abs(b)) + 1e-300
 
 
@@ -348,9 +427,21 @@ def oracle_history(ops, check_recalc=True, check_methods=True):
     q = s.q
     own = {}
     glob = "derivative"
+    gens = {}
     for n, op in enumerate(ops):
         out = s.run(op)
         t = op[0]
+        # one simulation is kept until recalculation or a change of the sample size
+        for k, kind in enumerate(s.kinds):
+            if kind == "der":
+                g = s.gen_of(k)
+                if t == "recalc" or (t == "set_size" and op[1] == k):
+                    gens.pop(k, None)          # (recalculate() reaches the quantities a result is built from as well)
+                if g is not None:
+                    if check_recalc and k in gens and gens[k] != g:
+                        return "step {} {}: the Monte Carlo samples of quantity {} were drawn again (simulation {} replaced by {}) " \
+                               "although nothing was recalculated and no sample size changed".format(n, op, k, gens[k], g)
+                    gens[k] = g
         if t == "set_global":
             glob = op[1]
         elif t == "set_own":
@@ -390,7 +481,9 @@ def oracle_history(ops, check_recalc=True, check_methods=True):
                         n, op, what, k, a, b)
         if t in ("read_value", "read_error") and out[0] != "rejected":
             again = s.run(op)
-            if again != out:
+            if again != out and not (len(out) == len(again) and out[0] == again[0] and all(
+                    a == b or (isinstance(a, float) and isinstance(b, float) and math.isnan(a) and math.isnan(b))
+                    for a, b in zip(out[1:], again[1:]))):
                 return "step {} {}: two successive reads differ: {} then {}".format(n, op, out, again)
     return None
 
@@ -403,14 +496,14 @@ def determinism_oracle(ops, rng):
     plain = []
     keep = []
     for i, op in enumerate(ops):
-        if op[0] in ("set_global", "set_own", "reset_own", "peek", "set_size", "seed"):
+        if op[0] in ("set_global", "set_own", "reset_own", "peek", "set_size", "seed", "mc_setting"):
             continue
         plain.append(op)
         keep.append(i)
     def final_numbers(history):
         np.random.seed(rng.randrange(2 ** 31))
-        s, _ = run_history(history)
-        res = {}
+        s, outs = run_history(history)
+        res = {"reads": outs}
         for k in range(len(s.objs)):
             if s.kinds[k] != "der":
                 continue
@@ -431,6 +524,18 @@ def determinism_oracle(ops, rng):
     # (one world at a time: a new session clears the library's register of values)
     r1 = final_numbers(ops)
     r2 = final_numbers(plain)
+    # every number read by the derivative method DURING the history is the one read at the same point of the history
+    # without method switches, Monte Carlo settings and seeds
+    # (compared as long as no source has changed: afterwards a read may legitimately return the numbers buffered by an
+    #  earlier read, and which reads went to the derivative method differs between the two histories)
+    o1, o2 = r1.pop("reads"), r2.pop("reads")
+    for j, i in enumerate(keep):
+        a, b = o1[i], o2[j]
+        if ops[i][0] in ("set_value", "set_error", "set_corr", "reset_corr"):
+            break
+        if a[0] in ("val", "err", "deriv") and b[0] == a[0] and not close(a[1], b[1], 1e-12):
+            return "step {} {}: the derivative method reports {} here, but {} at the same point of the same history without " \
+                   "method switches / Monte Carlo settings / seeds".format(i, ops[i], a[1], b[1])
     for k in sorted(r1):
         # (equal up to the order in which the terms are summed: the library iterates over a set of random ids)
         if k not in r2 or not (close(r1[k][0], r2[k][0], 1e-12) and close(r1[k][1], r2[k][1], 1e-12)):
